@@ -81,15 +81,19 @@ pub fn fail(sig: impl Into<String>, what: impl Into<String>) -> Sexp {
 }
 
 pub mod c11;
+pub mod c17;
 pub mod instr_io;
 pub mod c03;
 pub mod c16;
+pub mod c01;
 
 pub fn all() -> Vec<Box<dyn Prop>> {
     vec![
         Box::new(c11::C11),
+        Box::new(c17::C17),
         Box::new(c03::C03),
         Box::new(c16::C16),
+        Box::new(c01::C01),
     ]
 }
 
